@@ -1919,6 +1919,15 @@ class Evaluator:
         return self.binop(type(e.op).__name__, self.eval(e.left, fr), self.eval(e.right, fr), e)
 
     def binop(self, op, a, b, node=None):
+        if op == "BitAnd" and isinstance(b, Const) and b.value == 1 and not isinstance(b.value, bool) and isinstance(a, V) and not isinstance(a, Const) and not is_boolish(a):
+            return self.binop("Mod", a, Const(2), node)          # x & 1 is x % 2 for every integer x
+        if op == "BitAnd" and isinstance(a, Const) and a.value == 1 and not isinstance(a.value, bool) and isinstance(b, V) and not isinstance(b, Const) and not is_boolish(b):
+            return self.binop("Mod", b, Const(2), node)
+        if op == "BitXor" and isinstance(a, V) and isinstance(b, V) and all(is_boolish(x_) or (isinstance(x_, Const) and isinstance(x_.value, bool)) for x_ in (a, b)):
+            # exclusive or of two truth values
+            return disj([conj([a, negate(b)]), conj([negate(a), b])])
+        if op == "RShift" and isinstance(b, Const) and isinstance(b.value, int) and not isinstance(b.value, bool) and 0 <= b.value <= 16 and isinstance(a, V) and not isinstance(a, Const):
+            return self.binop("FloorDiv", a, Const(2 ** b.value), node)   # x >> k is x // 2**k (arithmetic shift = floor)
         if op == "Sub" and a == Const(1) and isinstance(b, V) and not isinstance(b, Const):
             from .terms import atoms_of as _atoms
             if any(isinstance(x, App) and x.fn == "cdf" for x in [b] + list(_atoms(b))):
